@@ -43,6 +43,7 @@ RULE += (' Also: sync() wrappers called with keywords of any name (function, sel
 RULE += (" Also: the caller's one-shot iterator (synchronous or asynchronous) is still usable, with everything not taken, after an any_iter stream over it was closed early.")
 RULE += (' Also: any_iter over an async iterator that sets itself up in __aiter__.')
 RULE += (' Also: await_each over a sequence that offers __getitem__ only.')
+RULE += (' Also: apply awaits its keywords in the order of the call, whatever their names.')
 ASSUMPTIONS = ["direct specification oracle (no stdlib twin exists for these helpers)"]
 EXHAUSTIVE = {"quick": True, "thorough": True}
 MAX_SHARDS = 8
@@ -742,7 +743,7 @@ def run_apply(case, stats):
     else:
         coros = [aw(i) for i in range(n)]
     pos = coros[:npos]
-    kw = {f"k{i}": coros[i] for i in range(npos, n)}
+    kw = {f"k{9 - i}": coros[i] for i in range(npos, n)}
     seen = {}
 
     class ResultAwaitable:
@@ -795,7 +796,7 @@ def run_apply(case, stats):
         return {"violations": viols, "nontrivial": True, "sig": tuple(sorted(case.items(), key=str))}
     if case["fail"] is None:
         want_args = tuple(vals[:npos])
-        want_kwargs = {f"k{i}": vals[i] for i in range(npos, n)}
+        want_kwargs = {f"k{9 - i}": vals[i] for i in range(npos, n)}
         ok = (res[0] == "ok" and len(seen.get("args", ())) == npos and all(a is b for a, b in zip(seen["args"], want_args))
               and seen["kwargs"].keys() == want_kwargs.keys() and all(seen["kwargs"][k] is v for k, v in want_kwargs.items())
               and res[1] == ("result", want_args, tuple(sorted(want_kwargs.items()))))
